@@ -1,6 +1,7 @@
 from typing import Any
 from abc import abstractmethod, ABCMeta
 import asyncio
+import concurrent.futures
 import logging
 import threading
 
@@ -101,7 +102,12 @@ class BaseRunner(metaclass=ABCMeta):
             return
         # the loop exists independently of all runners, we can use it to shut down
         closed = asyncio.run_coroutine_threadsafe(self.aclose(), self.asyncio_loop)
-        closed.result()
+        try:
+            closed.result()
+        except concurrent.futures.CancelledError:
+            # the event loop is winding down by itself (interrupt, failure)
+            # and took the close request with it: wait for that instead
+            self._stopped.wait()
 
 
 class OrphanedReturn(Exception):
